@@ -312,11 +312,14 @@ Proof.
     - exact HP.
     - apply Forall_app. split; apply fS_range; cbn; lia.
     - exact E1. }
-  intros s t Hs Ht. unfold PresetsSpec.m_sum. cbn [PolySem.ksum fold_right].
+  intros s t Hs Ht. unfold PresetsSpec.m_sum. rewrite !(AlgebraBasics.ksum_cons K k0 kadd).
   specialize (Hown2 s t Hs Ht). unfold PresetsSpec.m_add, PresetsSpec.m_zero in *.
-  transitivity (kadd k0 (PolySem.ksum K k0 kadd r (fun x => m_comm (zmat (modes4 o o') P) (smat b x) s t))).
-  { rewrite <- Hown2. unfold PolySem.ksum. ring. }
-  transitivity (kadd k0 k0); [|ring]. f_equal.
+  set (F := fun x => m_comm (zmat (modes4 o o') P) (smat b x) s t) in *.
+  change (kadd (F o) (kadd (F o') (PolySem.ksum K k0 kadd r F)) = k0).
+  change (kadd (F o) (F o') = k0) in Hown2.
+  assert (Hr : PolySem.ksum K k0 kadd r F = k0); [|
+    transitivity (kadd (kadd (F o) (F o')) (PolySem.ksum K k0 kadd r F)); [ring|rewrite Hown2, Hr; ring]].
+  unfold F.
   apply (AlgebraBasics.ksum_zero_ext K k0 k1 kadd kmul ksub kopp kzero Hring). intros p Hp.
   assert (Hpin : In p orbs) by (apply (Permutation_in _ (Permutation_sym Pr)); right; right; exact Hp).
   assert (Hpo : o <> p) by (intro E; subst p; contradiction).
@@ -336,6 +339,490 @@ Proof.
     - apply fS_range; cbn; lia.
     - exact E2. }
   exact (Hz s t Hs Ht).
+Qed.
+
+(** * Step 1 and conclusion: the spin-spin exchange *)
+Variable leqb : L -> L -> bool.
+Hypothesis leqb_spec : forall a b, leqb a b = true <-> a = b.
+
+Local Notation x_szsz := (PresetsSpec.x_szsz K k0 k1 kmul ksub khalf L idx).
+Local Notation x_spsm := (PresetsSpec.x_spsm K k0 k1 kopp L idx).
+Local Notation x_smsp := (PresetsSpec.x_smsp K k0 k1 kopp L idx).
+Local Notation xspec_ss := (PresetsSpec.xspec_ss K k0 k1 kadd kmul ksub kopp khalf L idx).
+Local Notation spec_ss := (PresetsSpec.spec_ss K k0 k1 kadd kmul ksub kopp khalf M L idx).
+Local Notation spec_level := (PresetsSpec.spec_level K k0 k1 kadd kmul L idx).
+Local Notation xspec_coulombP := (PresetsSpec.xspec_coulombP K k0 k1 kadd kmul ksub kopp khalf L idx).
+Local Notation spec_coulombP := (PresetsSpec.spec_coulombP K k0 k1 kadd kmul ksub kopp khalf M L idx).
+Local Notation spec_coulombP3 := (PresetsSpec.spec_coulombP3 K k0 k1 kadd kmul ksub kopp khalf M L idx).
+
+Lemma half_twice : kmul khalf (kadd khalf khalf) = khalf.
+Proof. rewrite Hhalf. ring. Qed.
+
+Lemma cm_nn : forall i j s t, i < M -> j < M -> length s = M -> length t = M ->
+  cm [cdag i; cann i; cdag j; cann j] s t = m_nn i j s t.
+Proof. intros i j s t Hi Hj Hs Ht. exact (cm_nn_diag K k0 k1 kadd kmul ksub kopp kzero Hring M i j Hi Hj s t Hs Ht). Qed.
+Lemma cm_n1 : forall i s t, i < M -> length s = M -> length t = M -> cm [cdag i; cann i] s t = m_n i s t.
+Proof. intros i s t Hi Hs Ht. exact (cm_n_diag K k0 k1 kopp M i Hi s t Hs Ht). Qed.
+
+Ltac zmat_unfold :=
+  cbv [PresetsTransport.zmat fold_right map relabel fst snd fN fNN fQ nth modes2 modes4
+       P_level P_A P_X P_Y P_SS4 P_SS2 PresetsTransport.phi InitialRing.gen_phiZ InitialRing.gen_phiPOS cdag cann].
+
+Lemma ss_piece4 : forall l1 l2 a J,
+  umode (l1, a) < M -> dmode (l1, a) < M -> umode (l2, a) < M -> dmode (l2, a) < M ->
+  meq (m_scale J (m_add (x_szsz l1 l2 a) (m_scale khalf (m_add (x_spsm l1 l2 a) (x_smsp l1 l2 a)))))
+      (m_scale (kmul J (kmul khalf khalf)) (zmat (modes4 (l1, a) (l2, a)) P_SS4)).
+Proof.
+  intros l1 l2 a J H1 H2 H3 H4 s t Hs Ht. unfold PresetsSpec.m_scale, PresetsSpec.m_add.
+  zmat_unfold.
+  change (cm [(false, umode (l1, a)); (true, umode (l1, a)); (false, umode (l2, a)); (true, umode (l2, a))] s t)
+    with (cm [cdag (umode (l1, a)); cann (umode (l1, a)); cdag (umode (l2, a)); cann (umode (l2, a))] s t).
+  change (cm [(false, dmode (l1, a)); (true, dmode (l1, a)); (false, dmode (l2, a)); (true, dmode (l2, a))] s t)
+    with (cm [cdag (dmode (l1, a)); cann (dmode (l1, a)); cdag (dmode (l2, a)); cann (dmode (l2, a))] s t).
+  change (cm [(false, umode (l1, a)); (true, umode (l1, a)); (false, dmode (l2, a)); (true, dmode (l2, a))] s t)
+    with (cm [cdag (umode (l1, a)); cann (umode (l1, a)); cdag (dmode (l2, a)); cann (dmode (l2, a))] s t).
+  change (cm [(false, dmode (l1, a)); (true, dmode (l1, a)); (false, umode (l2, a)); (true, umode (l2, a))] s t)
+    with (cm [cdag (dmode (l1, a)); cann (dmode (l1, a)); cdag (umode (l2, a)); cann (umode (l2, a))] s t).
+  rewrite !cm_nn by assumption.
+  unfold PresetsSpec.x_szsz, PresetsSpec.sz_val, PresetsSpec.m_nn, PresetsSpec.m_diag, PresetsSpec.x_spsm,
+    PresetsSpec.x_smsp, PresetsSpec.up, PresetsSpec.down, umode, dmode, cdag, cann. cbn [fst snd].
+  set (p := cm _ s t). set (q := cm _ s t).
+  replace (kmul khalf (kadd p q)) with (kmul (kmul khalf (kadd khalf khalf)) (kadd p q)) by (rewrite half_twice; reflexivity).
+  destruct (state_eqb s t); ring.
+Qed.
+
+Lemma ss_piece2 : forall l a J, umode (l, a) < M -> dmode (l, a) < M ->
+  meq (m_scale J (m_add (x_szsz l l a) (m_scale khalf (m_add (x_spsm l l a) (x_smsp l l a)))))
+      (m_scale (kmul J (kmul khalf khalf)) (zmat (modes2 (l, a)) P_SS2)).
+Proof.
+  intros l a J H1 H2 s t Hs Ht. unfold PresetsSpec.m_scale, PresetsSpec.m_add.
+  zmat_unfold.
+  change (cm [(false, umode (l, a)); (true, umode (l, a)); (false, umode (l, a)); (true, umode (l, a))] s t)
+    with (cm [cdag (umode (l, a)); cann (umode (l, a)); cdag (umode (l, a)); cann (umode (l, a))] s t).
+  change (cm [(false, dmode (l, a)); (true, dmode (l, a)); (false, dmode (l, a)); (true, dmode (l, a))] s t)
+    with (cm [cdag (dmode (l, a)); cann (dmode (l, a)); cdag (dmode (l, a)); cann (dmode (l, a))] s t).
+  change (cm [(false, umode (l, a)); (true, umode (l, a)); (false, dmode (l, a)); (true, dmode (l, a))] s t)
+    with (cm [cdag (umode (l, a)); cann (umode (l, a)); cdag (dmode (l, a)); cann (dmode (l, a))] s t).
+  change (cm [(false, dmode (l, a)); (true, dmode (l, a)); (false, umode (l, a)); (true, umode (l, a))] s t)
+    with (cm [cdag (dmode (l, a)); cann (dmode (l, a)); cdag (umode (l, a)); cann (umode (l, a))] s t).
+  rewrite !cm_nn by assumption.
+  unfold PresetsSpec.x_szsz, PresetsSpec.sz_val, PresetsSpec.m_nn, PresetsSpec.m_diag, PresetsSpec.x_spsm,
+    PresetsSpec.x_smsp, PresetsSpec.up, PresetsSpec.down, umode, dmode, cdag, cann. cbn [fst snd].
+  set (p := cm _ s t). set (q := cm _ s t).
+  replace (kmul khalf (kadd p q)) with (kmul (kmul khalf (kadd khalf khalf)) (kadd p q)) by (rewrite half_twice; reflexivity).
+  destruct (state_eqb s t); ring.
+Qed.
+
+Lemma P_SS4_range : zrange 4 P_SS4.
+Proof. unfold zrange, P_SS4, fNN. repeat constructor. Qed.
+Lemma P_SS2_range : zrange 2 P_SS2.
+Proof. unfold zrange, P_SS2, fNN. repeat constructor. Qed.
+
+(** [H_SS, S^+-_tot] = 0: spin-spin exchange between two different sites or of one site with itself, any
+    number of orbitals, against the total spin of any set of orbitals that contains the ones it acts on *)
+Theorem ss_su2 : forall (b : bool) (orbs : list orb) l1 l2 norb J,
+  orbs_ok orbs -> (forall a, a < norb -> In (l1, a) orbs /\ In (l2, a) orbs) ->
+  meq (m_comm (spec_ss l1 l2 norb J) (Stot b orbs)) m_zero.
+Proof.
+  intros b orbs l1 l2 norb J Hok Hin.
+  eapply meq_trans; [apply comm_meq; [eapply xspec_ss_ok; exact Hring|apply meq_refl]|].
+  unfold PresetsSpec.xspec_ss. eapply meq_trans; [apply comm_sum_l|]. apply comm_zero_sum. intros a Ha.
+  apply in_seq in Ha. destruct (Hin a) as [I1 I2]; [lia|].
+  pose proof Hok as (ND & Hm & Hd). destruct (Hm _ I1) as (A1 & A2 & _). destruct (Hm _ I2) as (A3 & A4 & _).
+  destruct (leqb l1 l2) eqn:El.
+  - apply leqb_spec in El. subst l2.
+    eapply meq_trans; [apply comm_meq; [apply ss_piece2; assumption|apply meq_refl]|].
+    eapply meq_trans; [apply comm_scale_l|]. apply scale_zero.
+    apply piece2_commutes; [exact Hok|exact I1|exact P_SS2_range|exact own2_SS2].
+  - assert (Hne : (l1, a) <> (l2, a)).
+    { intro E. inversion E as [E']. apply leqb_spec in E'. congruence. }
+    eapply meq_trans; [apply comm_meq; [apply ss_piece4; assumption|apply meq_refl]|].
+    eapply meq_trans; [apply comm_scale_l|]. apply scale_zero.
+    apply piece4_commutes; [exact Hok|exact I1|exact I2|exact Hne|exact P_SS4_range|exact own4_SS4].
+Qed.
+
+(** * Step 1 and conclusion: the Kanamori interaction (two spins, any number of orbitals, any U') *)
+Section Kanamori.
+Variables (l : L) (norb : nat) (U Up J eps : K).
+Hypothesis Hr : forall a, a < norb -> umode (l, a) < M /\ dmode (l, a) < M.
+
+Let u (a : nat) : nat := umode (l, a).
+Let d (a : nat) : nat := dmode (l, a).
+Let R := rng norb.
+Let ne (a a' : nat) : bool := negb (a =? a').
+Let PS (F : nat -> nat -> mat) : mat := m_sum R (fun a => m_sum_if R (ne a) (fun a' => F a a')).
+Let B1 (a a' : nat) : mat := m_nn (u a) (d a').
+Let C1 (a a' : nat) : mat := m_nn (d a) (d a').
+Let C2 (a a' : nat) : mat := m_nn (u a) (u a').
+Let Q1 (a a' : nat) : mat := x_quartic (u a) (d a') (u a') (d a).
+Let Q2 (a a' : nat) : mat := x_quartic (u a') (d a') (u a) (d a).
+Let SA : mat := m_sum R (fun a => m_nn (u a) (d a)).
+Let LV : mat := m_sum R (fun a => m_add (m_n (d a)) (m_n (u a))).
+
+Lemma PS_add : forall F G, meq (PS (fun a a' => m_add (F a a') (G a a'))) (m_add (PS F) (PS G)).
+Proof.
+  intros F G. unfold PS. eapply meq_trans; [|eapply m_sum_add; exact Hring].
+  apply meq_sum. intros a _. eapply m_sum_if_add. exact Hring.
+Qed.
+Lemma PS_sym : forall F, meq (PS F) (PS (fun a a' => F a' a)).
+Proof.
+  intros F. unfold PS. eapply (m_sum_if_sym K k0 k1 kadd kmul ksub kopp kzero Hring M R ne).
+  intros a b. unfold ne. rewrite Nat.eqb_sym. reflexivity.
+Qed.
+Lemma PS_ext : forall F G, (forall a a', a < norb -> a' < norb -> a <> a' -> meq (F a a') (G a a')) -> meq (PS F) (PS G).
+Proof.
+  intros F G H. unfold PS. apply meq_sum. intros a Ha. apply meq_sum_if. intros a' Ha' Hne.
+  apply in_seq in Ha. apply in_seq in Ha'. apply H; try lia.
+  unfold ne in Hne. intro E. subst a'. rewrite Nat.eqb_refl in Hne. discriminate.
+Qed.
+
+(** sums over the two spin values *)
+Lemma sg2 : forall f : nat -> nat -> mat,
+  meq (m_sum (rng 2) (fun z => m_sum_if (rng 2) (fun z' => z' <? z) (fun z' => f z z'))) (f 1 0).
+Proof.
+  intros f s t _ _.
+  cbv [PresetsSpec.m_sum PresetsSpec.m_sum_if PresetsSpec.rng seq PolySem.ksum fold_right Nat.ltb Nat.leb PresetsSpec.m_zero].
+  ring.
+Qed.
+Lemma s2 : forall g : nat -> mat, meq (m_sum (rng 2) g) (m_add (g 0) (g 1)).
+Proof.
+  intros g s t _ _.
+  cbv [PresetsSpec.m_sum PresetsSpec.m_add PresetsSpec.rng seq PolySem.ksum fold_right]. ring.
+Qed.
+
+Lemma kan_stepA : meq (xspec_coulombP l norb 2 U Up J eps)
+  (m_add (m_add (m_add (m_add (m_scale U SA) (m_scale Up (PS B1)))
+                       (m_scale (kmul (ksub Up J) khalf) (PS (fun a a' => m_add (C1 a a') (C2 a a')))))
+                (m_scale (kopp J) (PS (fun a a' => m_add (Q1 a a') (Q2 a a')))))
+         (m_scale eps LV)).
+Proof.
+  cbv beta zeta delta [PresetsSpec.xspec_coulombP].
+  apply meq_add; [apply meq_add; [apply meq_add; [apply meq_add|]|]|].
+  - apply meq_scale. unfold SA. apply meq_sum. intros a _. apply (sg2 (fun z z' => m_nn (idx l a z) (idx l a z'))).
+  - apply meq_scale. unfold PS. apply meq_sum. intros a _. apply meq_sum_if. intros a' _ _.
+    apply (sg2 (fun z z' => m_nn (idx l a z) (idx l a' z'))).
+  - apply meq_scale. unfold PS. apply meq_sum. intros a _. apply meq_sum_if. intros a' _ _.
+    apply (s2 (fun z => m_nn (idx l a z) (idx l a' z))).
+  - apply meq_scale. unfold PS. apply meq_sum. intros a _. apply meq_sum_if. intros a' _ _.
+    apply (sg2 (fun z z' => m_add (x_quartic (idx l a z) (idx l a' z') (idx l a' z) (idx l a z'))
+                                  (x_quartic (idx l a' z) (idx l a' z') (idx l a z) (idx l a z')))).
+  - unfold PresetsSpec.spec_level, LV. eapply meq_trans; [|eapply m_sum_scale; exact Hring].
+    apply meq_sum. intros a _.
+    eapply meq_trans; [apply (s2 (fun z => m_scale eps (m_n (idx l a z))))|].
+    apply meq_sym. eapply m_scale_add. exact Hring.
+Qed.
+
+Lemma zA : forall a, a < norb -> meq (zmat (modes2 (l, a)) P_A) (m_nn (u a) (d a)).
+Proof.
+  intros a Ha s t Hs Ht. destruct (Hr a Ha) as [H1 H2]. zmat_unfold.
+  change (cm [(false, umode (l, a)); (true, umode (l, a)); (false, dmode (l, a)); (true, dmode (l, a))] s t)
+    with (cm [cdag (umode (l, a)); cann (umode (l, a)); cdag (dmode (l, a)); cann (dmode (l, a))] s t).
+  rewrite cm_nn by assumption. unfold u, d. ring.
+Qed.
+Lemma zL : forall a, a < norb -> meq (zmat (modes2 (l, a)) P_level) (m_add (m_n (d a)) (m_n (u a))).
+Proof.
+  intros a Ha s t Hs Ht. destruct (Hr a Ha) as [H1 H2]. zmat_unfold.
+  change (cm [(false, umode (l, a)); (true, umode (l, a))] s t) with (cm [cdag (umode (l, a)); cann (umode (l, a))] s t).
+  change (cm [(false, dmode (l, a)); (true, dmode (l, a))] s t) with (cm [cdag (dmode (l, a)); cann (dmode (l, a))] s t).
+  rewrite !cm_n1 by assumption. unfold PresetsSpec.m_add, u, d. ring.
+Qed.
+
+Ltac fold_nn x y :=
+  change (cm [(false, x); (true, x); (false, y); (true, y)]) with (cm [cdag x; cann x; cdag y; cann y]).
+
+Lemma zX : forall a a', a < norb -> a' < norb ->
+  meq (zmat (modes4 (l, a) (l, a')) P_X)
+      (m_add (m_add (B1 a a') (B1 a' a)) (m_add (C1 a a') (C2 a a'))).
+Proof.
+  intros a a' Ha Ha' s t Hs Ht. destruct (Hr a Ha) as [H1 H2]. destruct (Hr a' Ha') as [H3 H4]. zmat_unfold.
+  fold_nn (umode (l, a)) (dmode (l, a')). fold_nn (umode (l, a')) (dmode (l, a)).
+  fold_nn (dmode (l, a)) (dmode (l, a')). fold_nn (umode (l, a)) (umode (l, a')).
+  rewrite !cm_nn by assumption. unfold PresetsSpec.m_add, B1, C1, C2, u, d. ring.
+Qed.
+
+Lemma zY : forall a a', a < norb -> a' < norb ->
+  meq (zmat (modes4 (l, a) (l, a')) P_Y)
+      (m_add (m_add (C1 a a') (C2 a a')) (m_add (m_add (Q1 a a') (Q1 a' a)) (m_add (Q2 a a') (Q2 a' a)))).
+Proof.
+  intros a a' Ha Ha' s t Hs Ht. destruct (Hr a Ha) as [H1 H2]. destruct (Hr a' Ha') as [H3 H4]. zmat_unfold.
+  fold_nn (dmode (l, a)) (dmode (l, a')). fold_nn (umode (l, a)) (umode (l, a')).
+  rewrite !cm_nn by assumption.
+  unfold PresetsSpec.m_add, C1, C2, Q1, Q2, u, d, PresetsSpec.x_quartic, cdag, cann. ring.
+Qed.
+
+Definition kan_dec : mat :=
+  m_add (m_add (m_add (m_scale U (m_sum R (fun a => zmat (modes2 (l, a)) P_A)))
+                      (m_scale eps (m_sum R (fun a => zmat (modes2 (l, a)) P_level))))
+               (m_scale (kmul Up khalf) (PS (fun a a' => zmat (modes4 (l, a) (l, a')) P_X))))
+        (m_scale (kmul (kopp J) khalf) (PS (fun a a' => zmat (modes4 (l, a) (l, a')) P_Y))).
+
+Lemma two_half : forall x, x = kmul khalf (kadd x x).
+Proof. intros x. transitivity (kmul (kadd khalf khalf) x); [rewrite Hhalf|]; ring. Qed.
+
+Lemma kan_decomposition : meq (xspec_coulombP l norb 2 U Up J eps) kan_dec.
+Proof.
+  eapply meq_trans; [apply kan_stepA|]. unfold kan_dec.
+  (* bring the pieces to sums of the same building blocks *)
+  assert (EA : meq (m_sum R (fun a => zmat (modes2 (l, a)) P_A)) SA).
+  { unfold SA. apply meq_sum. intros a Ha. apply in_seq in Ha. apply zA. lia. }
+  assert (EL : meq (m_sum R (fun a => zmat (modes2 (l, a)) P_level)) LV).
+  { unfold LV. apply meq_sum. intros a Ha. apply in_seq in Ha. apply zL. lia. }
+  assert (EX : meq (PS (fun a a' => zmat (modes4 (l, a) (l, a')) P_X))
+                   (m_add (m_add (PS B1) (PS B1)) (PS (fun a a' => m_add (C1 a a') (C2 a a'))))).
+  { eapply meq_trans; [apply PS_ext; intros a a' Ha Ha' _; apply zX; assumption|].
+    eapply meq_trans; [apply PS_add|]. apply meq_add; [|apply meq_refl].
+    eapply meq_trans; [apply PS_add|]. apply meq_add; [apply meq_refl|].
+    apply meq_sym. apply (PS_sym B1). }
+  assert (EY : meq (PS (fun a a' => zmat (modes4 (l, a) (l, a')) P_Y))
+                   (m_add (PS (fun a a' => m_add (C1 a a') (C2 a a')))
+                          (m_add (PS (fun a a' => m_add (Q1 a a') (Q2 a a'))) (PS (fun a a' => m_add (Q1 a a') (Q2 a a')))))).
+  { eapply meq_trans; [apply PS_ext; intros a a' Ha Ha' _; apply zY; assumption|].
+    eapply meq_trans; [apply PS_add|]. apply meq_add; [apply meq_refl|].
+    (* (Q1 + Q1') + (Q2 + Q2') = (Q1 + Q2) + (Q1' + Q2'), and the primed sum is the unprimed one relabelled *)
+    eapply meq_trans.
+    { apply (PS_ext _ (fun a a' => m_add (m_add (Q1 a a') (Q2 a a')) (m_add (Q1 a' a) (Q2 a' a)))).
+      intros a a' _ _ _ s t _ _. unfold PresetsSpec.m_add. ring. }
+    eapply meq_trans; [apply PS_add|]. apply meq_add; [apply meq_refl|].
+    apply meq_sym. apply (PS_sym (fun a a' => m_add (Q1 a a') (Q2 a a'))). }
+  set (MC := PS (fun a a' => m_add (C1 a a') (C2 a a'))) in *.
+  set (MQ := PS (fun a a' => m_add (Q1 a a') (Q2 a a'))) in *.
+  set (MB := PS B1) in *.
+  intros s t Hs Ht. unfold PresetsSpec.m_add, PresetsSpec.m_scale.
+  specialize (EA s t Hs Ht). specialize (EL s t Hs Ht). specialize (EX s t Hs Ht). specialize (EY s t Hs Ht).
+  rewrite EA, EL, EX, EY. unfold PresetsSpec.m_add.
+  set (a := SA s t). set (lv := LV s t). set (b := MB s t). set (c := MC s t). set (q := MQ s t).
+  rewrite (two_half (kmul Up b)). rewrite (two_half (kmul (kopp J) q)). ring.
+Qed.
+
+Theorem kanamori_su2_x : forall (b : bool) (orbs : list orb),
+  orbs_ok orbs -> (forall a, a < norb -> In (l, a) orbs) ->
+  meq (m_comm (xspec_coulombP l norb 2 U Up J eps) (Stot b orbs)) m_zero.
+Proof.
+  intros b orbs Hok Hin.
+  eapply meq_trans; [apply comm_meq; [apply kan_decomposition|apply meq_refl]|]. unfold kan_dec.
+  assert (P2 : forall P, zrange 2 P -> own2 P = true ->
+            meq (m_comm (m_sum R (fun a => zmat (modes2 (l, a)) P)) (Stot b orbs)) m_zero).
+  { intros P HP Ho. eapply meq_trans; [apply comm_sum_l|]. apply comm_zero_sum. intros a Ha. apply in_seq in Ha.
+    apply piece2_commutes; [exact Hok|apply Hin; lia|exact HP|exact Ho]. }
+  assert (P4 : forall P, zrange 4 P -> own4 P = true ->
+            meq (m_comm (PS (fun a a' => zmat (modes4 (l, a) (l, a')) P)) (Stot b orbs)) m_zero).
+  { intros P HP Ho. unfold PS. eapply meq_trans; [apply comm_sum_l|]. apply comm_zero_sum. intros a Ha.
+    apply in_seq in Ha. unfold PresetsSpec.m_sum_if.
+    eapply meq_trans; [apply comm_sum_l|]. apply comm_zero_sum. intros a' Ha'. apply in_seq in Ha'.
+    destruct (ne a a') eqn:E.
+    - apply piece4_commutes; [exact Hok|apply Hin; lia|apply Hin; lia| |exact HP|exact Ho].
+      intro E'. inversion E'. subst a'. unfold ne in E. rewrite Nat.eqb_refl in E. discriminate.
+    - intros s t Hs Ht. unfold PresetsSpec.m_comm, PresetsSpec.m_sub.
+      rewrite (m_mul_zero_l K k0 k1 kadd kmul ksub kopp kzero Hring M _ s t Hs Ht).
+      rewrite (m_mul_zero_r K k0 k1 kadd kmul ksub kopp kzero Hring M _ s t Hs Ht).
+      unfold PresetsSpec.m_zero. ring. }
+  eapply meq_trans; [apply comm_add_l|]. apply add_zero.
+  - eapply meq_trans; [apply comm_add_l|]. apply add_zero.
+    + eapply meq_trans; [apply comm_add_l|]. apply add_zero.
+      * eapply meq_trans; [apply comm_scale_l|]. apply scale_zero. apply P2; [|exact own2_A].
+        unfold zrange, P_A, fNN. repeat constructor.
+      * eapply meq_trans; [apply comm_scale_l|]. apply scale_zero. apply P2; [|exact own2_level].
+        unfold zrange, P_level, fN. repeat constructor.
+    + eapply meq_trans; [apply comm_scale_l|]. apply scale_zero. apply P4; [|exact own4_X].
+      unfold zrange, P_X, fNN. repeat constructor.
+  - eapply meq_trans; [apply comm_scale_l|]. apply scale_zero. apply P4; [|exact own4_Y].
+    unfold zrange, P_Y, fNN, fQ. repeat constructor.
+Qed.
+
+End Kanamori.
+
+(** [H_Kanamori(U, U', J), S^+-_tot] = 0 for every U' *)
+Theorem kanamori_su2_general : forall (b : bool) (orbs : list orb) l norb U Up J eps,
+  orbs_ok orbs -> (forall a, a < norb -> In (l, a) orbs) ->
+  meq (m_comm (spec_coulombP l norb 2 U Up J eps) (Stot b orbs)) m_zero.
+Proof.
+  intros b orbs l norb U Up J eps Hok Hin.
+  eapply meq_trans; [apply comm_meq; [eapply xspec_coulombP_ok; exact Hring|apply meq_refl]|].
+  apply kanamori_su2_x; try assumption.
+  intros a Ha. destruct Hok as (_ & Hm & _). destruct (Hm _ (Hin a Ha)) as (A1 & A2 & _). split; assumption.
+Qed.
+
+(** the case named in the property: U' = U - 2J (LatticePresets::addCoulombP with three parameters) *)
+Theorem kanamori_su2 : forall (b : bool) (orbs : list orb) l norb U J eps,
+  orbs_ok orbs -> (forall a, a < norb -> In (l, a) orbs) ->
+  meq (m_comm (spec_coulombP3 l norb 2 U J eps) (Stot b orbs)) m_zero.
+Proof. intros. unfold PresetsSpec.spec_coulombP3. apply kanamori_su2_general; assumption. Qed.
+
+(** * In terms of sites: S^+-_tot of PresetsSpec over a list of two-spin sites (label, number of orbitals) *)
+Local Notation m_Splus_tot := (PresetsSpec.m_Splus_tot K k0 k1 kadd kmul kopp M L idx).
+Local Notation m_Sminus_tot := (PresetsSpec.m_Sminus_tot K k0 k1 kadd kmul kopp M L idx).
+Local Notation cp := (coef_poly K k0 k1 kadd kmul kopp).
+Local Notation prepare := (IndexHam.prepare L K k1 kadd kmul kopp kzero idx).
+Local Notation lattice_of := (PresetsPrepare.lattice_of K L).
+Local Notation find_site := (Lattice.find_site L leqb).
+
+Definition site_orbs (sites : list (L * nat)) : list orb :=
+  flat_map (fun ln => map (fun a => (fst ln, a)) (rng (snd ln))) sites.
+
+(** labels are different; every mode of every listed site is a mode of the Fock space; different
+    (label, orbital, spin) have different modes *)
+Definition sites_ok (sites : list (L * nat)) : Prop :=
+  NoDup (map fst sites) /\
+  (forall l n a z, In (l, n) sites -> a < n -> z < 2 -> idx l a z < M) /\
+  (forall l n a z l' n' a' z', In (l, n) sites -> In (l', n') sites -> a < n -> a' < n' -> z < 2 -> z' < 2 ->
+     idx l a z = idx l' a' z' -> l = l' /\ a = a' /\ z = z').
+
+Lemma in_site_orbs : forall sites o, In o (site_orbs sites) <-> exists n, In (fst o, n) sites /\ snd o < n.
+Proof.
+  intros sites [l a]. unfold site_orbs. rewrite in_flat_map. cbn [fst snd]. split.
+  - intros ([l' n] & Hin & Hm). cbn [fst snd] in Hm. apply in_map_iff in Hm. destruct Hm as (a' & E & Ha').
+    inversion E; subst. apply in_seq in Ha'. exists n. split; [exact Hin|lia].
+  - intros (n & Hin & Ha). exists (l, n). split; [exact Hin|]. cbn [fst snd]. apply in_map_iff. exists a.
+    split; [reflexivity|]. apply in_seq. lia.
+Qed.
+
+Lemma NoDup_app' : forall (A : Type) (x y : list A), NoDup x -> NoDup y -> (forall a, In a x -> In a y -> False) ->
+  NoDup (x ++ y).
+Proof.
+  induction x as [|a x IH]; intros y Hx Hy Hd; [exact Hy|]. cbn [app]. inversion Hx as [|a' x' Hn Hx']; subst a' x'.
+  constructor.
+  - intro H. apply in_app_or in H. destruct H as [H|H]; [contradiction|]. apply (Hd a); [left; reflexivity|exact H].
+  - apply IH; [exact Hx'|exact Hy|]. intros b Hb1 Hb2. apply (Hd b); [right; exact Hb1|exact Hb2].
+Qed.
+
+Lemma NoDup_site_orbs : forall sites, NoDup (map fst sites) -> NoDup (site_orbs sites).
+Proof.
+  induction sites as [|[l n] sites IH]; intros ND; [constructor|]. cbn [map fst] in ND.
+  inversion ND as [|x y Hn ND']; subst x y. change (site_orbs ((l, n) :: sites))
+    with (map (fun a => (l, a)) (rng n) ++ site_orbs sites).
+  apply NoDup_app'.
+  - apply FinFun.Injective_map_NoDup; [intros a b E; inversion E; reflexivity|apply seq_NoDup].
+  - apply IH. exact ND'.
+  - intros [l' a] H1 H2. apply in_map_iff in H1. destruct H1 as (a' & E & _). inversion E; subst l' a'.
+    apply in_site_orbs in H2. destruct H2 as (n' & Hin & _). cbn [fst] in Hin.
+    apply Hn. apply in_map_iff. exists (l, n'). split; [reflexivity|exact Hin].
+Qed.
+
+Lemma orbs_ok_sites : forall sites, sites_ok sites -> orbs_ok (site_orbs sites).
+Proof.
+  intros sites (ND & Hm & Hi). split; [apply NoDup_site_orbs; exact ND|]. split.
+  - intros [l a] Ho. apply in_site_orbs in Ho. destruct Ho as (n & Hin & Ha). cbn [fst snd] in *.
+    unfold umode, dmode. cbn [fst snd]. split; [|split].
+    + apply (Hm l n); [exact Hin|exact Ha|unfold spin_up; lia].
+    + apply (Hm l n); [exact Hin|exact Ha|unfold spin_down; lia].
+    + intro E. destruct (Hi l n a spin_up l n a spin_down Hin Hin Ha Ha) as (_ & _ & E'); try exact E;
+        unfold spin_up, spin_down in *; try lia.
+  - intros [l a] [l' a'] Ho Ho' Hne. apply in_site_orbs in Ho. apply in_site_orbs in Ho'.
+    destruct Ho as (n & Hin & Ha). destruct Ho' as (n' & Hin' & Ha'). cbn [fst snd] in *.
+    unfold umode, dmode. cbn [fst snd].
+    assert (D : forall z z', z < 2 -> z' < 2 -> idx l a z <> idx l' a' z').
+    { intros z z' Hz Hz' E. destruct (Hi l n a z l' n' a' z' Hin Hin' Ha Ha' Hz Hz' E) as (E1 & E2 & _).
+      apply Hne. congruence. }
+    repeat split; apply D; unfold spin_up, spin_down; lia.
+Qed.
+
+Lemma Stot_sites : forall (b : bool) sites,
+  meq (if b then m_Splus_tot sites else m_Sminus_tot sites) (Stot b (site_orbs sites)).
+Proof.
+  intros b sites s t Hs Ht. unfold Stot, site_orbs, PresetsSpec.m_sum.
+  rewrite (ksum_flat_map K k0 k1 kadd kmul ksub kopp kzero Hring).
+  destruct b; unfold PresetsSpec.m_Splus_tot, PresetsSpec.m_Sminus_tot, PresetsSpec.m_sum;
+    apply (AlgebraBasics.ksum_ext K k0 kadd); intros [l n] _; rewrite (AlgebraBasics.ksum_map K k0 kadd);
+    apply (AlgebraBasics.ksum_ext K k0 kadd); intros a _; cbn [fst snd];
+    unfold smat, umode, dmode, PresetsSpec.m_splus, PresetsSpec.m_sminus; cbn [fst snd];
+    apply (hop_product K k0 k1 kadd kmul ksub kopp kzero Hring M _ _ s t Hs Ht).
+Qed.
+
+(** the property's statement: Kanamori with U' = U - 2J and the spin-spin exchange commute with the
+    total-spin raising and lowering operators (of any collection of two-spin sites containing the ones they
+    act on), for every number of orbitals and every position of the modes in the index space *)
+Theorem kanamori_su2_sites : forall sites l norb U J eps, sites_ok sites -> In (l, norb) sites ->
+  meq (m_comm (spec_coulombP3 l norb 2 U J eps) (m_Splus_tot sites)) m_zero /\
+  meq (m_comm (spec_coulombP3 l norb 2 U J eps) (m_Sminus_tot sites)) m_zero.
+Proof.
+  intros sites l norb U J eps Hok Hin.
+  assert (Ho : forall a, a < norb -> In (l, a) (site_orbs sites)).
+  { intros a Ha. apply in_site_orbs. exists norb. split; assumption. }
+  split.
+  - eapply meq_trans; [apply comm_meq; [apply meq_refl|apply (Stot_sites true)]|].
+    apply kanamori_su2; [apply orbs_ok_sites; exact Hok|exact Ho].
+  - eapply meq_trans; [apply comm_meq; [apply meq_refl|apply (Stot_sites false)]|].
+    apply kanamori_su2; [apply orbs_ok_sites; exact Hok|exact Ho].
+Qed.
+
+Theorem kanamori_su2_every_Uprime : forall sites l norb U Up J eps, sites_ok sites -> In (l, norb) sites ->
+  meq (m_comm (spec_coulombP l norb 2 U Up J eps) (m_Splus_tot sites)) m_zero /\
+  meq (m_comm (spec_coulombP l norb 2 U Up J eps) (m_Sminus_tot sites)) m_zero.
+Proof.
+  intros sites l norb U Up J eps Hok Hin.
+  assert (Ho : forall a, a < norb -> In (l, a) (site_orbs sites)).
+  { intros a Ha. apply in_site_orbs. exists norb. split; assumption. }
+  split.
+  - eapply meq_trans; [apply comm_meq; [apply meq_refl|apply (Stot_sites true)]|].
+    apply kanamori_su2_general; [apply orbs_ok_sites; exact Hok|exact Ho].
+  - eapply meq_trans; [apply comm_meq; [apply meq_refl|apply (Stot_sites false)]|].
+    apply kanamori_su2_general; [apply orbs_ok_sites; exact Hok|exact Ho].
+Qed.
+
+Theorem ss_su2_sites : forall sites l1 l2 norb J, sites_ok sites -> In (l1, norb) sites -> In (l2, norb) sites ->
+  meq (m_comm (spec_ss l1 l2 norb J) (m_Splus_tot sites)) m_zero /\
+  meq (m_comm (spec_ss l1 l2 norb J) (m_Sminus_tot sites)) m_zero.
+Proof.
+  intros sites l1 l2 norb J Hok Hin1 Hin2.
+  assert (Ho : forall a, a < norb -> In (l1, a) (site_orbs sites) /\ In (l2, a) (site_orbs sites)).
+  { intros a Ha. split; apply in_site_orbs; exists norb; split; assumption. }
+  split.
+  - eapply meq_trans; [apply comm_meq; [apply meq_refl|apply (Stot_sites true)]|].
+    apply ss_su2; [apply orbs_ok_sites; exact Hok|exact Ho].
+  - eapply meq_trans; [apply comm_meq; [apply meq_refl|apply (Stot_sites false)]|].
+    apply ss_su2; [apply orbs_ok_sites; exact Hok|exact Ho].
+Qed.
+
+(** ** ... and for the Hamiltonians the presets actually produce *)
+Variable kconj : K -> K.
+Local Notation vo := (kvops K kadd kmul ksub kopp kzero khalf kconj).
+Local Notation denotes := (PresetsProofs.denotes K k0 k1 kadd kmul kopp kzero M L idx).
+
+Lemma denotes_commutes : forall m w A S, denotes m w A -> meq (m_comm A S) m_zero ->
+  forall h, prepare true (lattice_of m (fst w)) = Done h -> meq (m_comm (cp h) S) m_zero.
+Proof.
+  intros m w A S (_ & h' & E & HA) H h Eh. rewrite E in Eh. inversion Eh; subst h'.
+  eapply meq_trans; [apply comm_meq; [exact HA|apply meq_refl]|exact H].
+Qed.
+
+Lemma site_ok_of_sites : forall sites l n, sites_ok sites -> In (l, n) sites -> PresetsProofs.site_ok M L idx l n 2.
+Proof. intros sites l n (_ & Hm & _) Hin a z Ha Hz. apply (Hm l n); assumption. Qed.
+
+Theorem addCoulombP3_su2 : forall sites m l norb U J eps h,
+  sites_ok sites -> In (l, norb) sites -> find_site l m = Some (norb, 2) -> 2 <= norb ->
+  prepare true (lattice_of m (fst (Lattice.addCoulombP3 L leqb K vo m l U J eps))) = Done h ->
+  meq (m_comm (cp h) (m_Splus_tot sites)) m_zero /\ meq (m_comm (cp h) (m_Sminus_tot sites)) m_zero.
+Proof.
+  intros sites m l norb U J eps h Hok Hin F Hn Eh.
+  pose proof (addCoulombP3_denotes K k0 k1 kadd kmul ksub kopp kzero Hring khalf kconj M L leqb idx m l norb 2 U J eps
+                F Hn (le_n 2) (site_ok_of_sites sites l norb Hok Hin)) as D.
+  destruct (kanamori_su2_sites sites l norb U J eps Hok Hin) as [Hp Hm].
+  split; eapply denotes_commutes; eassumption.
+Qed.
+
+Theorem addCoulombP_su2 : forall sites m l norb U Up J eps h,
+  sites_ok sites -> In (l, norb) sites -> find_site l m = Some (norb, 2) -> 2 <= norb ->
+  prepare true (lattice_of m (fst (Lattice.addCoulombP L leqb K vo m l U Up J eps))) = Done h ->
+  meq (m_comm (cp h) (m_Splus_tot sites)) m_zero /\ meq (m_comm (cp h) (m_Sminus_tot sites)) m_zero.
+Proof.
+  intros sites m l norb U Up J eps h Hok Hin F Hn Eh.
+  pose proof (addCoulombP_denotes K k0 k1 kadd kmul ksub kopp kzero Hring khalf kconj M L leqb idx m l norb 2 U Up J eps
+                F Hn (le_n 2) (site_ok_of_sites sites l norb Hok Hin)) as D.
+  destruct (kanamori_su2_every_Uprime sites l norb U Up J eps Hok Hin) as [Hp Hm].
+  split; eapply denotes_commutes; eassumption.
+Qed.
+
+Theorem addSS_su2 : forall cfg sites m l1 l2 norb J h,
+  sites_ok sites -> In (l1, norb) sites -> In (l2, norb) sites ->
+  find_site l1 m = Some (norb, 2) -> find_site l2 m = Some (norb, 2) ->
+  prepare true (lattice_of m (fst (Lattice.addSS L leqb K vo cfg m l1 l2 J))) = Done h ->
+  meq (m_comm (cp h) (m_Splus_tot sites)) m_zero /\ meq (m_comm (cp h) (m_Sminus_tot sites)) m_zero.
+Proof.
+  intros cfg sites m l1 l2 norb J h Hok Hin1 Hin2 F1 F2 Eh.
+  pose proof (addSS_denotes K k0 k1 kadd kmul ksub kopp kzero Hring khalf kconj M L leqb leqb_spec idx cfg m l1 l2 norb J
+                F1 F2 (site_ok_of_sites sites l1 norb Hok Hin1) (site_ok_of_sites sites l2 norb Hok Hin2)) as D.
+  destruct (ss_su2_sites sites l1 l2 norb J Hok Hin1 Hin2) as [Hp Hm].
+  split; eapply denotes_commutes; eassumption.
 Qed.
 
 End SU2.
